@@ -56,13 +56,9 @@ def rule_reject(ctx):
             cache[fpath] = validation.checks_deep(ctx.prog, f)
             ctx.seen(f)
         cs = cache[fpath]
-        have = [c for c in cs if validation.norm(c["subject"], c["op"], c["other"]) == cond]
-        if len(have) < n:
-            parts = cond.rsplit(" ", 2)
-            if len(parts) == 3 and parts[2].lstrip("-").isdigit() and abs(int(parts[2])) >= 2:
-                alt = [c for c in cs if validation.norm("_", c["op"], c["other"]) == "_ %s %s" % (parts[1], parts[2])]
-                if len(alt) == n:
-                    have = alt
+        if ("mt", fpath) not in cache:
+            cache[("mt", fpath)] = validation.match_table(cs, [(c_, n_) for f_, c_, n_, _w in TABLE if f_ == fpath], validation.deep_ref("jbr", fpath))
+        have = cache[("mt", fpath)].get(cond, [])
         key = "%s|%s" % (fpath.split("::")[-1], cond)
         if len(have) >= n:
             ctx.ok(rid, key, "reject `%s` -> Err (%s)" % (cond, why), nontrivial=True, fn=f)
